@@ -29,7 +29,7 @@ FAMS = ["exprprint"]
 
 # Defects of ast's String methods demonstrated by this check on the unchanged tree (see the report).
 _POSTFIX = "String() of %s does not parenthesise an operator operand: (a + b)%s prints as a + b%s and re-parses as a + (b%s)"
-PROPOSED_KNOWN = [
+_PROPOSED_BEFORE_FIXES = [
     {"kind": "known", "signature": {"fam": "exprprint", "cause": "tree-differs", "k1": k, "k2": k2},
      "what": _POSTFIX % (k, s, s, s) + (" [unary operand]" if k2 == "UnaryOperator" else "")}
     for k, s in [("Index", "[i]"), ("Slicing", "[i:j]"), ("Selector", ".f"), ("TypeAssertion", ".(T)"), ("Call", "(x)")]
@@ -325,3 +325,8 @@ def elided(t):
 def replay(ctx, path):
     c = json.loads((path / "case.json").read_text())
     return run(ctx, only={c["id"]: c})
+
+
+# The defects found by this check were fixed in /repo except those whose repair changes expectations pinned by the
+# existing tests; those are listed in known-findings.json (kind "known").  _PROPOSED_BEFORE_FIXES documents the full set.
+PROPOSED_KNOWN = []
